@@ -55,6 +55,7 @@ class Faults:
         self.rec = rec
         self.mut_calls = {}
         self.io_ops = 0
+        self.out_ops = 0
 
     def maybe_mutator_fault(self, cname, meth, site=None):
         mf = self.plan.get('mutator')
@@ -93,6 +94,34 @@ class Faults:
             self.rec.count('fault.cand_io_error')
             code = getattr(errno, iof.get('errno', 'ENOSPC'))
             raise OSError(code, os.strerror(code), str(path))
+
+
+    def out_io(self, op, f, data=None):
+        """Disk fault while the output file (or its staging sibling) is being
+        written: the n-th low-level write is torn (a prefix reaches the disk,
+        then ENOSPC / EIO), or the n-th close fails after the tail of the data
+        was lost.  Returns normally if no fault is due."""
+        self.out_ops += 1
+        self.rec.counters['out_file_lowlevel_ops'] += 1
+        of = self.plan.get('out_io')
+        if not of:
+            return
+        if self.out_ops == of['at'] or (of.get('sticky')
+                                        and self.out_ops >= of['at']):
+            code = getattr(errno, of.get('errno', 'ENOSPC'))
+            self.rec.count('fault.out_io_error.' + op)
+            try:
+                if op == 'write' and data:
+                    f.write(data[:len(data) // 2])
+                    f.flush()
+                elif op == 'close':
+                    f.flush()
+                    sz = f.tell()
+                    f.truncate(sz - sz // 3)
+                    f.close()
+            except (OSError, ValueError):
+                pass
+            raise OSError(code, os.strerror(code), getattr(f, 'name', ''))
 
 
 def _install_once():
